@@ -156,7 +156,7 @@ fn parent(entry: &Entry, tier: Tier, seed: u64) -> i32 {
         std::env::var("VERIF_WORKER_TIMEOUT_S")
             .ok()
             .and_then(|s| s.parse().ok())
-            .unwrap_or(tier.pick(1500, 6 * 3600)),
+            .unwrap_or(tier.pick(420, 6 * 3600)),
     );
     let mut results: Vec<(usize, WorkerResult)> = Vec::new();
     let mut inconclusive: Vec<String> = Vec::new();
